@@ -7,9 +7,12 @@ walk under the encoder's sharing keys, back references, compact witness stream) 
 `to_vec_with_witness` / `to_vec_without_witness` / `RedeemNode::decode` on every generated program,
 and the driver checks on every `enc R` operation that its own decoder accepts its own encoding with
 the same roots.  The round trip is proved layer by layer and assembled for programs in the decoder's
-canonical form (`roundtrip_canonical`); for programs that the encoder renumbers or merges (not in
-post-order, unused nodes, equal identity roots at different nodes) the assembled statement stays
-`roundtrip_partial` + the driver's run-time check.
+canonical form (`roundtrip_canonical`) and for arbitrary programs all of whose nodes are used —
+nodes in any order, several nodes with one identity root, which the encoder renumbers and merges —
+along the encoder's node map (`roundtrip_general`).  For plans with *unused* nodes only the
+structural and conversion stages hold in general (`roundtrip_nodemap_partial`,
+`roundtrip_nodemap_convert`): an unused node can constrain the types of used ones, which no encoding
+preserves (the property's quantifier is "built in a fresh context holding only its own nodes").
 -/
 import SimplicityModel.Prog.Codec
 import SimplicityModel.Prog.JetsElements
@@ -22,6 +25,9 @@ import SimplicityModel.Prog.CommitEnc
 import SimplicityModel.Prog.EncSelf
 import SimplicityModel.Prog.EncConvert
 import SimplicityModel.Prog.InferRename
+import SimplicityModel.Prog.RtGeneral
+import SimplicityModel.Prog.RtJets
+import SimplicityModel.Prog.RtExample
 
 namespace Props.C01
 open Wire Prog
@@ -116,16 +122,18 @@ then the node list `N` it wrote
   wire node written for an item with the identity of `t`, and its child references are `f` of the
   children of `t`.
 
-This is `decode (encode p) ≅ p` along `f` as far as the *structure* goes.  What is still missing for
-the statement `decodeRedeem (encode p) = ok d` with `d.plan[f i]` of the kind of `p[i]`, the same
-arrow, roots, cost and witness value: (1) that `convert` accepts `N` — proved separately,
-`roundtrip_nodemap_convert` below; (2) the types: `Inf.least_of_renaming` (below, `reinference_along_renaming`) reduces it
-to showing that the variable map induced by `f` sends the constraints of `p` onto those of the
-converted plan — needs all nodes of `p` reachable (an unused node can constrain a used one) and equal
-arrows at nodes with equal identity roots; (3) the annotations and the witness stream of the
-converted plan, node by node along `f`; (4) `decodeRedeem`'s identity-root uniqueness check (holds
-since classes are written once).  These remain checked at run time by the driver on every generated
-program (`model-roundtrip-differs` / `model-rejects-own-encoding` would be printed). -/
+This is `decode (encode p) ≅ p` along `f` as far as the *structure* goes.  The full statement
+`decodeRedeem (encode p) = ok d` with `d.plan[f i]` of the kind of `p[i]`, the same arrow, roots,
+cost and witness value is `roundtrip_general` below, for plans all of whose nodes are reachable from
+the root.  What stays partial here is exactly the case of a plan with *unused* nodes: the structure
+and the conversion (`roundtrip_nodemap_convert`) are as stated, but the types need not come back — an
+unused node `comp a b` equates the target of `a` with the source of `b` in the inference context of
+`p`, the encoding drops it, and re-inference on the decoded program then returns a strictly more
+general arrow at `f a` (so also other identity and annotated roots).  The implementation behaves
+the same way (a sibling abandoned in the same inference context), which is why the property
+quantifies over programs built in a fresh context holding only their own nodes; the driver still
+checks every generated `enc R` operation at run time (`model-roundtrip-differs` /
+`model-rejects-own-encoding` would be printed). -/
 theorem roundtrip_nodemap_partial {J : Type} (jc : JetCode J) (ofName : String → Option J) (p : Plan)
     (an : Array Annot) (wit : Nat → Option (List Bool)) (hsz : an.size = p.size) (hpos : 0 < p.size)
     (hb : PlanBackward p) (hpl : PayloadOk p) (hcong : EncCongr p an) (pb wb : List Bool)
@@ -356,6 +364,157 @@ theorem compWitnessUnit_canonical :
     subst hj
     exact ⟨[], .unit, by simp, by rfl⟩
 
+/-- **Round trip of an arbitrary program, assembled** (about the functions the driver runs:
+`Prog.encode`, redeem mode, and `Prog.decodeRedeem`).  Let `p` be *any* plan all of whose nodes are
+reachable from the root (`PlanReach`) — nodes in any topological order, several nodes with one
+identity root: the encoder renumbers and merges — such that
+
+* children are earlier nodes (`PlanBackward`), there are fewer than 2^31 nodes, fail entropy is 64
+  bytes, words have wire sizes, assertion hashes are 256-bit numbers, no disconnect node is open;
+* `p` is well typed as a 1 → 1 program with arrows `arrows` (`infer … p true = ok arrows`), `an` are
+  its annotations (`annots … = some an`: CMR-independent roots IMR/IHR/AMR and cost of every node),
+  and every witness node carries the compact bits of a value of its target type;
+* **identity roots separate the nodes of `p`** (`Prog.IhrFaithful`, the hypothesis that stands for
+  collision-freedom of the hash): two nodes with one identity root have the same kind and payload,
+  the same arrow, the same witness bits, and children with pairwise equal identity roots.  The first
+  three are what an injective hash gives (the identity root commits to the identity Merkle root —
+  kind, payload, witness value, the children's identity Merkle roots — and to the type Merkle roots
+  of source and target); it is stated on the nodes of `p` rather than as injectivity of SHA-256,
+  which is false of any function into 256 bits.  The last part — the children agree in their
+  *identity roots*, i.e. also in their arrows — is in addition the condition that nodes merged by
+  the encoder have their children merged as well (it can fail without any collision when two
+  `comp` nodes differ only in the type between their halves: then the annotated roots differ and
+  no decoder could return both);
+* the unifier's fuel suffices on the plan the decoder rebuilds (`Prog.reencodedPlan`; `fuel` is
+  never a verdict of the model, the driver prints `model-fuel`);
+* the jet table reads back the names it prints and prints the names it reads
+  (`elements_ofName_nameOf`, `elements_nameOf_ofName` for the driver's table).
+
+If the encoder returns `(pb, wb)`, then `decodeRedeem` accepts `(pb, wb)` and returns a program `d`
+for which there is a map `f` from the nodes of `p` to the nodes of `d.plan` with
+
+* `f root = root`; node `f i` of `d.plan` is node `i` of `p` with its child references mapped by `f`
+  (same kind, jet, word, fail entropy, assertion hash);
+* `d.arrows[f i] = arrows[i]`, `d.annots[f i] = an[i]` (identity Merkle root, identity root,
+  annotated root, cost);
+* the commitment roots `Prog.cmrs` of `d.plan` are, at `f i`, those of `p` at `i` (in particular the
+  commitment root of the program);
+* the witness bits returned for node `f i` are those of witness node `i`;
+* every node of `d.plan` is `f i` for some `i`, or the hidden placeholder of an assertion;
+* re-encoding `d` gives `(pb, wb)` again.
+
+Not covered: plans with unused nodes (see `roundtrip_nodemap_partial`: the statement is false for
+them), and commitment-time encodings of non-canonical plans (`roundtrip_commit_canonical`). -/
+theorem roundtrip_general (tb : Tables) (hof : ∀ j, tb.ofName (tb.nameOf j) = some j)
+    (hnm : ∀ name j, tb.ofName name = some j → tb.nameOf j = name)
+    (p : Plan) (arrows : Array (BM4.Ty × BM4.Ty)) (an : Array Annot) (wit : Nat → Option (List Bool))
+    (hpos : 0 < p.size) (hlt : p.size < 2 ^ 31) (hb : PlanBackward p) (hpl : PayloadOk p)
+    (hh : HashOk p) (hfb : ∀ (i : Nat) (e : List Nat), p[i]? = some (.fail e) → ∀ b ∈ e, b < 256)
+    (hopen : ∀ (i a : Nat), p[i]? ≠ some (Node.disconnect a none))
+    (hall : ∀ i, i < p.size → PlanReach p i)
+    (hinf : infer tb.jetTy p true = .ok arrows)
+    (han : annots tb.jetCmr tb.jetCost p arrows wit = some an)
+    (hwt : ∀ i, p[i]? = some .witness → ∃ bits v, wit i = some bits ∧
+      decCompact (arrows.getD i (.one, .one)).2 bits = some (v, []))
+    (hf : IhrFaithful p arrows an wit)
+    (hfuel : ∀ q, reencodedPlan tb p an = some q → infer tb.jetTy q true ≠ .fuel)
+    (pb wb : List Bool) (he : encode tb.jc tb.ofName p an true wit = some (pb, wb)) :
+    ∃ (d : Decoded) (f : Nat → Nat),
+      decodeRedeem tb pb wb = .ok d ∧
+      f (p.size - 1) = d.plan.size - 1 ∧
+      (∀ i nd, p[i]? = some nd →
+        d.plan[f i]? = some (nd.mapCh f) ∧
+        d.arrows.getD (f i) (.one, .one) = arrows.getD i (.one, .one) ∧
+        d.annots.getD (f i) default = an.getD i default ∧
+        (nd = .witness → (d.wits.find? (·.1 = f i)).map (·.2) = wit i)) ∧
+      (∀ j nd', d.plan[j]? = some nd' → (∃ h, nd' = .hidden h) ∨ ∃ i, i < p.size ∧ f i = j) ∧
+      (∀ cp, cmrs tb.jetCmr p = some cp → ∃ cq, cmrs tb.jetCmr d.plan = some cq ∧
+        ∀ i, i < p.size → cq.getD (f i) 0 = cp.getD i 0) ∧
+      encode tb.jc tb.ofName d.plan d.annots true (fun i => (d.wits.find? (·.1 = i)).map (·.2)) =
+        some (pb, wb) :=
+  Prog.roundtrip_general tb hof hnm p arrows an wit hpos hlt hb hpl hh hfb hopen hall hinf han hwt hf
+    hfuel pb wb he
+
+/-- **The hypothesis `IhrFaithful` of `roundtrip_general`, layer by layer**: for an annotated plan
+(backward references, no hidden node, no open disconnect, every witness node with bits) identity
+roots separate the nodes as soon as (1) the last hashing step of the identity root — two SHA-256
+compressions over the identity Merkle root and the type Merkle roots of source and target, `ihrOf` —
+has no collision among the nodes of the plan (equal outputs: equal identity Merkle roots and equal
+arrows), (2) the identity Merkle root has no collision among the nodes of the plan (equal roots: same
+kind and payload, children with pairwise equal identity Merkle roots, equal witness bits), and
+(3) nodes with one identity root have children with pairwise equal arrows — implied by (1) and the
+typing rules for every combinator except for the type between the halves of `comp` and the source of
+the right child of `disconnect`, to which the identity root does not commit.  (1) and (2) are
+injectivity of the hash on the finitely many inputs that occur; no statement about SHA-256 outside
+the plan is assumed. -/
+theorem identity_roots_separate_of_layers {jc jk : String → Option Nat} {p : Plan}
+    {arrows : Array (BM4.Ty × BM4.Ty)} {wit : Nat → Option (List Bool)} {an : Array Annot}
+    (hb : PlanBackward p) (han : annots jc jk p arrows wit = some an)
+    (hnh : ∀ (i x : Nat), p[i]? ≠ some (Node.hidden x))
+    (hopen : ∀ (i a : Nat), p[i]? ≠ some (Node.disconnect a none))
+    (hwit : ∀ i, p[i]? = some .witness → (wit i).isSome)
+    (h1 : ∀ i i', i < p.size → i' < p.size →
+      ihrOf tmr (an.getD i default).imr (arrows.getD i (.one, .one)) =
+        ihrOf tmr (an.getD i' default).imr (arrows.getD i' (.one, .one)) →
+      (an.getD i default).imr = (an.getD i' default).imr ∧
+        arrows.getD i (.one, .one) = arrows.getD i' (.one, .one))
+    (h2 : ∀ (i i' : Nat) (nd nd' : Node), p[i]? = some nd → p[i']? = some nd' →
+      (an.getD i default).imr = (an.getD i' default).imr →
+      nd.shape = nd'.shape ∧
+      (∀ (k c c' : Nat), nd.children[k]? = some c → nd'.children[k]? = some c' →
+        (an.getD c default).imr = (an.getD c' default).imr) ∧
+      (nd = .witness → wit i = wit i'))
+    (h3 : ∀ (i i' : Nat) (nd nd' : Node), p[i]? = some nd → p[i']? = some nd' →
+      (an.getD i default).ihr = (an.getD i' default).ihr →
+      ∀ (k c c' : Nat), nd.children[k]? = some c → nd'.children[k]? = some c' →
+        arrows.getD c (.one, .one) = arrows.getD c' (.one, .one)) :
+    IhrFaithful p arrows an wit :=
+  Prog.ihrFaithful_of_layers hb (annots_spec jc jk p hb arrows wit an han) hnh hopen hwit h1 h2 h3
+
+/-- the Elements jet table the driver runs prints the name a jet was read from -/
+theorem elements_nameOf_ofName (name : String) (j : JetsE.J) (h : JetsE.ofName name = some j) :
+    JetsE.nameOf j = name :=
+  JetsE.nameOf_ofName name j h
+
+/-- the types of a program do not depend on the fuel-independent details of the encoding: the
+ingredient of `roundtrip_general` for the types.  If `g` maps the nodes of `p` onto the non-hidden
+nodes of `q`, preserving kinds and child references (`Prog.NodeMap`), nodes identified by `g` have
+one kind and one arrow, and no disconnect node of `p` is open, then inference on `q` — unless its
+fuel runs out — succeeds and returns at `g i` the arrow of node `i` of `p`. -/
+theorem reinference_along_nodemap (jt : JetTypes) (p q : Plan) (g r : Nat → Nat)
+    (arrows : Array (BM4.Ty × BM4.Ty)) (hpos : 0 < p.size) (hb : PlanBackward p) (M : NodeMap p q g r)
+    (hopen : ∀ (i a : Nat), p[i]? ≠ some (Node.disconnect a none))
+    (hinf : infer jt p true = .ok arrows)
+    (hshape : ∀ i i' nd nd', p[i]? = some nd → p[i']? = some nd' → g i = g i' → nd.shape = nd'.shape)
+    (harr : ∀ i i', i < p.size → i' < p.size → g i = g i' →
+      arrows.getD i (.one, .one) = arrows.getD i' (.one, .one))
+    (hfuel : ∀ E', constraints jt q true = some E' → Inf.unify unifyFuel E' [] ≠ .fuel) :
+    ∃ arrows', infer jt q true = .ok arrows' ∧
+      ∀ i, i < p.size → arrows'.getD (g i) (.one, .one) = arrows.getD i (.one, .one) :=
+  Prog.reinfer_along jt p q g r arrows hpos hb M hopen hinf hshape harr hfuel
+
+/-- non-vacuity of `roundtrip_general`: the plan `#[unit, unit, comp 1 0]` — the `unit` node twice
+(one identity root at two nodes, merged by the encoder) and referenced out of post-order (renumbered)
+— with the Elements tables satisfies every hypothesis: backward references, reachability, payloads,
+evaluated type inference (arrows `1 → 1` everywhere), annotations `#[a, a, c]` (SHA-256 values, not
+evaluated), `IhrFaithful`, the fuel condition on the rebuilt plan `#[unit, comp 0 0]` (evaluated),
+a successful encoder run (evaluated with the abstract roots) — given only that the identity roots
+`a.ihr` of `unit` and `c.ihr` of `comp` are different numbers.  The conclusion: the decoder accepts
+the encoding, both `unit` nodes go to one node of the decoded program, annotated `a`, the root to
+the root, annotated `c`, with children `f 1`, `f 0`, and re-encoding reproduces the bits. -/
+example : ∃ a c,
+    annots JetsE.jetCmr JetsE.jetCost #[Node.unit, Node.unit, Node.comp 1 0]
+      #[(.one, .one), (.one, .one), (.one, .one)] (fun _ => none) = some #[a, a, c] ∧
+    (a.ihr ≠ c.ihr → ∃ (pb wb : List Bool) (d : Decoded) (f : Nat → Nat),
+      encode JetsE.jc JetsE.ofName #[Node.unit, Node.unit, Node.comp 1 0] #[a, a, c] true (fun _ => none) =
+        some (pb, wb) ∧
+      decodeRedeem elementsTables pb wb = .ok d ∧ f 2 = d.plan.size - 1 ∧
+      d.plan[f 0]? = some .unit ∧ d.plan[f 1]? = some .unit ∧ d.plan[f 2]? = some (.comp (f 1) (f 0)) ∧
+      d.annots.getD (f 0) default = a ∧ d.annots.getD (f 1) default = a ∧ d.annots.getD (f 2) default = c ∧
+      encode JetsE.jc JetsE.ofName d.plan d.annots true (fun i => (d.wits.find? (·.1 = i)).map (·.2)) =
+        some (pb, wb)) :=
+  Prog.RtExample.dupUnit_roundtrip
+
 /-- **Commitment-time round trip, assembled** (about the functions the driver runs: `Prog.encode` in
 commit mode — what `enc C` runs, the model of `CommitNode::to_vec_without_witness` — and
 `Prog.decodeCommit`, the model of `CommitNode::decode`).  Let `p` be a plan with arrows,
@@ -438,6 +597,10 @@ example : ∃ an cm pb wb, encode JetsE.jc JetsE.ofName compWitnessUnit an false
   exact ⟨an, cm, _, _, h1, h2⟩
 
 #print axioms roundtrip_canonical
+#print axioms roundtrip_general
+#print axioms identity_roots_separate_of_layers
+#print axioms reinference_along_nodemap
+#print axioms elements_nameOf_ofName
 #print axioms roundtrip_nodemap_partial
 #print axioms roundtrip_nodemap_convert
 #print axioms reinference_along_renaming
